@@ -43,6 +43,7 @@ def Inv(h, hole=None):
                                         ForAll([t_], Implies(t_ != null, h.chl[t_] != LR.null), patterns=[h.chl[t_]])),
         'N-null-has-no-parent': h.par[null] == null,
         'C11/W1-owner-follows-the-hierarchy': ForAll([t_, c_], Implies(Desc(h.par, t_, c_), h.own[c_] == h.own[t_]), patterns=[Desc(h.par, t_, c_)]),
+        'C11/W1r-owner-only-if-reachable-from-that-WBS-root': ForAll([c_], Implies(And(c_ != null, h.own[c_] != W.null), insub(h.par, h.root[h.own[c_]], c_)), patterns=[h.own[c_]]),
         'C11/WR-hidden-roots': ForAll([w_], Implies(w_ != W.null, And(h.root[w_] != null, h.own[h.root[w_]] == w_, h.par[h.root[w_]] == null, h.tid[h.root[w_]] == EMPTY)), patterns=[h.root[w_]]),
         'C01/X1-no-link-along-the-hierarchy': ForAll([a_, b_], Implies(And(b_ != null, mem(h.P(b_), a_)), And(Not(Desc(h.par, a_, b_)), Not(Desc(h.par, b_, a_)), a_ != b_)), patterns=[mem(h.P(b_), a_)]),
         'C01/M1-links-symmetric': ForAll([a_, b_], Implies(And(a_ != null, b_ != null), mem(h.P(b_), a_) == mem(h.S(a_), b_)), patterns=[mem(h.P(b_), a_), mem(h.S(a_), b_)]),
@@ -209,3 +210,189 @@ def parent_setter_unit():
 
 
 UNITS = [parent_setter_unit()]
+
+
+# ================================================================================================ dependency setters
+class LinkPlugin(ListPlugin):
+    """adds to ListPlugin: the de-duplication idiom of the link setters, copying comprehension `[v for v in value]` (fresh list object),
+    iteration over list objects / list values, ghost update of the dependency relation at the one statement that rebinds the list"""
+
+    def __init__(self, side):
+        self.side = side          # 'pre' or 'suc'
+
+    def ev_ListComp(self, eng, e, st):
+        src = ast.unparse(e)
+        g = e.generators[0]
+        if len(e.generators) == 1 and isinstance(g.iter, ast.Call) and ast.unparse(g.iter.func) == 'enumerate' \
+                and src.replace(' ', '') == '[vfori,vinenumerate(value)ifnotany((viswforwinvalue[:i]))]'.replace(' ', ''):
+            # value = [v for i, v in enumerate(value) if not any(v is w for w in value[:i])] : first occurrences, order kept (library idiom, T1)
+            s, xs = eng.ev1(g.iter.args[0], st)
+            D = fresh('dedup', LT); j = Int('j'); k2 = Int('k2')
+            s.assume(And(nodup(D), ForAll([x], mem(D, x) == mem(xs.e, x), patterns=[mem(D, x)]),
+                         ForAll([a_, b_], Implies(And(mem(D, a_), mem(D, b_)), (idx(D, a_) < idx(D, b_)) == (idx(xs.e, a_) < idx(xs.e, b_))), patterns=[MultiPattern(idx(D, a_), idx(D, b_))])))
+            s.ghost['deduped_from'] = xs.e
+            return [(s, V(D, LT))]
+        if len(e.generators) == 1 and isinstance(e.elt, ast.Name) and e.elt.id == g.target.id and not g.ifs:
+            # [v for v in xs] : a fresh list object holding the same abstract value
+            s, xs = eng.ev1(g.iter, st); lv = self.listval(eng, s, xs, e.lineno)
+            r = fresh('newlist', LR); h = H(eng, s)
+            s.assume(r != LR.null); s.assume(ForAll([t_], And(r != h.pre[t_], r != h.suc[t_], r != h.chl[t_])))        # allocation freshness
+            eng.write(s, 'PyList.elems', Store(eng.field(s, 'PyList', 'elems'), r, lv))
+            return [(s, V(r, LR))]
+        return NotImplemented
+
+    def for_loop(self, eng, stmt, st):
+        s0, seq = eng.ev1(stmt.iter, st)
+        if seq.s != LR: return NotImplemented
+        k = eng.loop_contract.get(eng.loop_ids[id(stmt)], (eng.loop_ids[id(stmt)], None))[0]; idxn = f'_i{k}'; eng.locals[idxn] = INT
+        s0.env[idxn] = V(IntVal(0), INT)
+        s0.oblige('safe/AttributeError-None', seq.e != LR.null, f'for @{stmt.lineno}')
+        cur = lambda s: Select(eng.field(s, 'PyList', 'elems'), seq.e)                       # the live list object
+
+        def guard(s): return [(s, s.env[idxn].e < ln(cur(s)))]
+
+        def pre(b_):
+            b_.env[stmt.target.id] = V(at(cur(b_), b_.env[idxn].e), T); b_.env[idxn] = V(b_.env[idxn].e + 1, INT); return [b_]
+        return eng.loop(stmt, s0, guard, pre, extra_havoc=[idxn])
+
+    def assign(self, eng, s, target, v):
+        fld = '__predecessors' if self.side == 'pre' else '__successors'
+        if isinstance(target, ast.Attribute) and target.attr == fld:
+            r = Engine.assign(eng, s, target, v) if False else None
+            # plain field store, then the ghost update (sidecar): E[self] := set of value
+            s2, o = eng.ev1(target.value, s)
+            key = 'Task.' + eng.mangle(target.attr)
+            eng.write(s2, key, Store(eng.field(s2, 'Task', eng.mangle(target.attr)), o.e, eng.coerce(v, LR)))
+            Sv = fresh('setof', S('SET', SET)); val = s2.env['value'].e
+            s2.assume(ForAll([a_], Sv[a_] == mem(val, a_), patterns=[Sv[a_]]))
+            nE = Const(f'E!{fresh_id()}', REL); s2.assume(nE == Store(s2.ghost['E'], o.e, Sv)); s2.ghost['E'] = nE
+            return [(s2, FALL)]
+        return NotImplemented
+
+
+def link_setter_unit(side):
+    mine, other = ('pre', 'suc') if side == 'pre' else ('suc', 'pre')
+    pname = 'predecessors' if side == 'pre' else 'successors'
+
+    def build():
+        def M(h, t): return h.P(t) if side == 'pre' else h.S(t)          # the edited side
+        def O(h, t): return h.S(t) if side == 'pre' else h.P(t)          # the mirror side
+        def mref(h, t): return h.pre[t] if side == 'pre' else h.suc[t]
+        def oref(h, t): return h.suc[t] if side == 'pre' else h.pre[t]
+
+        def LInv(h, E):
+            return {
+                'C01/M1-links-symmetric': ForAll([a_, b_], Implies(And(a_ != null, b_ != null), mem(M(h, b_), a_) == mem(O(h, a_), b_)), patterns=[mem(M(h, b_), a_), mem(O(h, a_), b_)]),
+                'ND-no-link-listed-twice': ForAll([t_], Implies(t_ != null, And(nodup(h.P(t_)), nodup(h.S(t_)))), patterns=[h.pre[t_]]),
+                'NN-no-None-in-links': ForAll([t_, a_], Implies(And(t_ != null, Or(mem(h.P(t_), a_), mem(h.S(t_), a_))), a_ != null), patterns=[mem(h.P(t_), a_), mem(h.S(t_), a_)]),
+                'O1-list-objects-distinct': And(ForAll([t_, u_], Implies(And(t_ != null, u_ != null), And(h.pre[t_] != h.suc[u_], Implies(t_ != u_, And(h.pre[t_] != h.pre[u_], h.suc[t_] != h.suc[u_])))),
+                                                       patterns=[MultiPattern(h.pre[t_], h.suc[u_]), MultiPattern(h.pre[t_], h.pre[u_]), MultiPattern(h.suc[t_], h.suc[u_])]),
+                                                ForAll([t_, u_], Implies(And(t_ != null, u_ != null), And(h.chl[t_] != h.pre[u_], h.chl[t_] != h.suc[u_])), patterns=[MultiPattern(h.chl[t_], h.pre[u_]), MultiPattern(h.chl[t_], h.suc[u_])]),
+                                                ForAll([t_], Implies(t_ != null, And(h.pre[t_] != LR.null, h.suc[t_] != LR.null)), patterns=[h.pre[t_]])),
+                'SYNC-ghost-relation-mirrors-the-lists': ForAll([t_, a_], Implies(t_ != null, E[t_][a_] == mem(M(h, t_), a_)), patterns=[E[t_][a_]]),
+                'C01/M2-dependency-relation-acyclic': AcycP(E),
+                'C01/X1-no-link-along-the-hierarchy': ForAll([a_, b_], Implies(And(b_ != null, mem(M(h, b_), a_)), And(Not(Desc(h.par, a_, b_)), Not(Desc(h.par, b_, a_)), a_ != b_)), patterns=[mem(M(h, b_), a_)]),
+            }
+        LABS = ['C01/M1-links-symmetric', 'ND-no-link-listed-twice', 'NN-no-None-in-links', 'O1-list-objects-distinct', 'SYNC-ghost-relation-mirrors-the-lists',
+                'C01/M2-dependency-relation-acyclic', 'C01/X1-no-link-along-the-hierarchy']
+
+        def c_to_list(eng, st, recv, args, kws, node):
+            # _to_list(value): None -> [], a Task -> [task], an iterable -> its non-None elements: some list of non-null tasks (any repetitions)
+            Lv = fresh('value', LT); ii = Int('ii')
+            st.assume(ForAll([ii], Implies(And(0 <= ii, ii < ln(Lv)), at(Lv, ii) != null), patterns=[at(Lv, ii)]))
+            st.assume(ForAll([x], Implies(mem(Lv, x), x != null), patterns=[mem(Lv, x)]))
+            h = H(eng, st)
+            st.assume(ForAll([x, w_], Implies(And(mem(Lv, x), w_ != W.null), h.root[w_] != x), patterns=[MultiPattern(mem(Lv, x), h.root[w_])]))     # hidden roots are not public
+            st.ghost['value0'] = Lv
+            return [(st, V(Lv, LT))]
+
+        def c_none(eng, st, recv, args, kws, node): return [(st, V(None, NONE))]
+
+        def c_all_parents(eng, st, recv, args, kws, node):
+            A = fresh('parents', LT); h = H(eng, st)
+            st.assume(ForAll([x], mem(A, x) == And(Desc(h.par, x, recv.e), h.tid[x] != EMPTY), patterns=[mem(A, x)]))       # assumed contract of __get_all_parents (B)
+            return [(st, V(A, LT))]
+
+        def c_all_links(eng, st, recv, args, kws, node):
+            A = fresh('alllinks', LT)
+            st.assume(ForAll([x], mem(A, x) == TCp(st.ghost['E'], x, recv.e), patterns=[mem(A, x)]))       # assumed contract of __get_all_predecessors/_successors (B)
+            return [(st, V(A, LT))]
+        contracts = {'fn:_to_list': c_to_list, 'fn:_check_no_nones_in_list': c_none, 'prop:Task.all_parents': c_all_parents, 'prop:Task.all_children': c_all_children,
+                     'prop:Task.all_predecessors': c_all_links, 'prop:Task.all_successors': c_all_links, 'prop:Task.id': c_id}
+        me = lambda c: c['self']
+        val = lambda c: c['value']
+        h0 = lambda c: H(c.eng, c.pre); E0 = lambda c: c.pre.ghost['E']
+        hc = lambda c: H(c.eng, c.st); Ec = lambda c: c.st.ghost['E']
+
+        def same_shape(c):       # what the checking loops do not change
+            h, hh = hc(c), h0(c)
+            return And(h.pre == hh.pre, h.suc == hh.suc, Ec(c) == E0(c), h.elems == hh.elems, h.par == hh.par, h.chl == hh.chl, h.tid == hh.tid, h.root == hh.root)
+
+        def inv_L0(c):
+            j = Int('j'); h = h0(c)
+            return And(same_shape(c), c['_i0'] >= 0, ForAll([j], Implies(And(0 <= j, j < c['_i0']), And(at(val(c), j) != me(c), Not(And(Desc(h.par, at(val(c), j), me(c)), h.tid[at(val(c), j)] != EMPTY)),
+                                                                                                         Not(Desc(h.par, me(c), at(val(c), j)))))))
+
+        def checked(c):
+            j = Int('j'); h = h0(c)
+            return ForAll([x], Implies(mem(val(c), x), And(x != me(c), Not(And(Desc(h.par, x, me(c)), h.tid[x] != EMPTY)), Not(Desc(h.par, me(c), x)))), patterns=[mem(val(c), x)])
+
+        def inv_L1(c):
+            j = Int('j')
+            return And(same_shape(c), checked(c), c['_i1'] >= 0, ForAll([j], Implies(And(0 <= j, j < c['_i1']), Not(TCp(E0(c), me(c), at(val(c), j))))))
+
+        def nocycle(c):
+            return ForAll([x], Implies(mem(val(c), x), Not(TCp(E0(c), me(c), x))), patterns=[mem(val(c), x)])
+
+        def inv_L2(c):
+            h, hh = hc(c), h0(c); OP = M(hh, me(c)); k = c['_i2']
+            return {'frame': And(h.pre == hh.pre, h.suc == hh.suc, Ec(c) == E0(c), h.par == hh.par, h.chl == hh.chl, h.tid == hh.tid, h.root == hh.root, checked(c), nocycle(c), k >= 0, k <= ln(OP)),
+                    'edited-side-and-children-lists-unchanged': ForAll([t_], Implies(t_ != null, And(M(h, t_) == M(hh, t_), h.ch(t_) == hh.ch(t_))), patterns=[mref(h, t_), h.chl[t_]]),
+                    'mirror-entries-removed-so-far': ForAll([a_, b_], Implies(a_ != null, mem(O(h, a_), b_) == And(mem(O(hh, a_), b_), Not(And(b_ == me(c), mem(OP, a_), idx(OP, a_) < k)))), patterns=[mem(O(h, a_), b_)]),
+                    'mirror-lists-duplicate-free': ForAll([t_], Implies(t_ != null, nodup(O(h, t_))), patterns=[oref(h, t_)])}
+
+        def inv_L3(c):
+            h, hh = hc(c), h0(c); k = c['_i3']
+            same_other = (h.suc == hh.suc) if side == 'pre' else (h.pre == hh.pre)
+            mine_arr, mine_arr0 = (h.pre, hh.pre) if side == 'pre' else (h.suc, hh.suc)
+            return {'frame': And(same_other, h.par == hh.par, h.chl == hh.chl, h.tid == hh.tid, h.root == hh.root, checked(c), nocycle(c), k >= 0, k <= ln(val(c)),
+                                 mine_arr == Store(mine_arr0, me(c), mine_arr[me(c)]), M(h, me(c)) == val(c), mine_arr[me(c)] != LR.null,
+                                 Ec(c) == Store(E0(c), me(c), Ec(c)[me(c)]), ForAll([a_], Ec(c)[me(c)][a_] == mem(val(c), a_), patterns=[Ec(c)[me(c)][a_]])),
+                    'edited-side-of-others-unchanged': ForAll([t_], Implies(And(t_ != null, t_ != me(c)), M(h, t_) == M(hh, t_)), patterns=[mref(h, t_)]),
+                    'children-lists-unchanged': ForAll([t_], Implies(t_ != null, h.ch(t_) == hh.ch(t_)), patterns=[h.chl[t_]]),
+                    'new-list-object-is-fresh': And(ForAll([t_, u_], Implies(And(t_ != null, u_ != null), h.pre[t_] != h.suc[u_]), patterns=[MultiPattern(h.pre[t_], h.suc[u_])]),
+                                                    ForAll([t_], Implies(And(t_ != null, t_ != me(c)), mine_arr[me(c)] != mine_arr[t_]), patterns=[mine_arr[t_]]),
+                                                    ForAll([t_], Implies(t_ != null, mine_arr[me(c)] != h.chl[t_]), patterns=[h.chl[t_]])),
+                    'mirror-entries-added-so-far': ForAll([a_, b_], Implies(a_ != null, mem(O(h, a_), b_) == Or(And(b_ != me(c), mem(O(hh, a_), b_)), And(b_ == me(c), mem(val(c), a_), idx(val(c), a_) < k))), patterns=[mem(O(h, a_), b_)]),
+                    'mirror-lists-duplicate-free': ForAll([t_], Implies(t_ != null, nodup(O(h, t_))), patterns=[oref(h, t_)])}
+        L2P = ['frame', 'edited-side-and-children-lists-unchanged', 'mirror-entries-removed-so-far', 'mirror-lists-duplicate-free']
+        L3P = ['frame', 'edited-side-of-others-unchanged', 'children-lists-unchanged', 'new-list-object-is-fresh', 'mirror-entries-added-so-far', 'mirror-lists-duplicate-free']
+
+        def rc(c):      # the stated reasons for rejecting (C01): the task itself, an ancestor, a descendant, or a task that already depends on it (cycle)
+            h = h0(c); v0 = c.st.ghost.get('value0', c.pre.ghost.get('value0'))
+            return Exists([x], And(mem(v0, x), Or(x == me(c), Desc(h.par, x, me(c)), Desc(h.par, me(c), x), TCp(E0(c), me(c), x))))
+        v0 = lambda c: c.st.ghost['value0']
+        fps = {0: 'for v in value', 1: 'for v in value', 2: f'for v in self.__{pname}', 3: 'for v in value'}
+        fc = {'sig': {'self': T, 'value': LT}, 'ghost': {'E': S('REL', REL)},
+              'requires': [(l_, (lambda l_: lambda c: LInv(hc(c), Ec(c))[l_])(l_)) for l_ in LABS] +
+                          [('self-non-null', lambda c: me(c) != null), ('C01/F4-no-task-is-its-own-ancestor', lambda c: And(Acyc(hc(c).par), hc(c).par[null] == null)),
+                           ('hidden-root-has-reserved-id', lambda c: ForAll([w_], Implies(w_ != W.null, And(hc(c).root[w_] != null, hc(c).tid[hc(c).root[w_]] == EMPTY, hc(c).par[hc(c).root[w_]] == null)), patterns=[hc(c).root[w_]])),
+                           ('only-hidden-roots-have-the-reserved-id', lambda c: ForAll([t_], Implies(And(t_ != null, hc(c).tid[t_] == EMPTY), Exists([w_], And(w_ != W.null, hc(c).root[w_] == t_))), patterns=[hc(c).tid[t_]]))],
+              'loops': {0: {'fingerprint': fps[0], 'invariant': [('checked-so-far', inv_L0)]},
+                        1: {'fingerprint': fps[1], 'invariant': [('no-cycle-so-far', inv_L1)]},
+                        2: {'fingerprint': fps[2], 'invariant': [('un-mirror/' + l_, (lambda l_: lambda c: inv_L2(c)[l_])(l_)) for l_ in L2P], 'havoc_heap': ['PyList.elems']},
+                        3: {'fingerprint': fps[3], 'invariant': [('mirror/' + l_, (lambda l_: lambda c: inv_L3(c)[l_])(l_)) for l_ in L3P], 'havoc_heap': ['PyList.elems']}},
+              'raises': {'RuntimeError': [('C15/lists-unchanged', lambda c: And(hc(c).elems == h0(c).elems, hc(c).pre == h0(c).pre, hc(c).suc == h0(c).suc, hc(c).par == h0(c).par)),
+                                          ('C01/rejected-only-for-a-stated-reason', rc)]},
+              'ensures': [(l_, (lambda l_: lambda c: LInv(hc(c), Ec(c))[l_])(l_)) for l_ in LABS] +
+                         [('C16/list-is-exactly-the-given-tasks-in-first-occurrence-order', lambda c: And(ForAll([x], mem(M(hc(c), me(c)), x) == mem(v0(c), x)), nodup(M(hc(c), me(c))),
+                             ForAll([a_, b_], Implies(And(mem(M(hc(c), me(c)), a_), mem(M(hc(c), me(c)), b_)), (idx(M(hc(c), me(c)), a_) < idx(M(hc(c), me(c)), b_)) == (idx(v0(c), a_) < idx(v0(c), b_)))))),
+                          ('C16/same-side-lists-of-all-other-tasks-unchanged', lambda c: ForAll([t_], Implies(And(t_ != null, t_ != me(c)), M(hc(c), t_) == M(h0(c), t_)))),
+                          ('C16/mirror-side-updated-for-exactly-this-task', lambda c: ForAll([a_, b_], Implies(a_ != null, mem(O(hc(c), a_), b_) == If(b_ == me(c), mem(v0(c), a_), mem(O(h0(c), a_), b_))))),
+                          ('C16/hierarchy-untouched', lambda c: And(hc(c).par == h0(c).par, hc(c).chl == h0(c).chl, ForAll([t_], Implies(t_ != null, hc(c).ch(t_) == h0(c).ch(t_))))),
+                          ('C01/accepted-only-if-no-reason-to-reject', lambda c: Not(rc(c)))]}
+        return Engine(F, f'Task.{pname}.setter', contracts, TASK_CLASSES, fc, plugins=[LinkPlugin(side)]), LIST_AX + GRAPH_AX + DEP_AX
+    return Unit(f'Task.{pname}.setter', F, build, ['C01', 'C15', 'C16'], timeout_ms=15000)
+
+
+UNITS += [link_setter_unit('pre'), link_setter_unit('suc')]
